@@ -417,6 +417,22 @@ func (in *Interp) assignStmt(s *syntax.AssignStmt, e *env) error {
 }
 
 // inplace applies x op= y: lists are extended and dicts updated in place, everything else is x op y.
+// unshared positions a failure of an operation that the reference performs through a different
+// library call than the VM does (in-place += and |= are Append/SetKey here, a dedicated
+// mutability check plus extend/update there): the failure and where it happens are comparable, the
+// wording is not.
+func unshared(pos syntax.Position, err error) error {
+	e := shared(pos, err)
+	var re *Error
+	if errors.As(e, &re) && re.Pos == pos && re.Kind == "library" {
+		c := *re
+		c.Shared = false
+		c.Kind = "inplace"
+		return &c
+	}
+	return e
+}
+
 func (in *Interp) inplace(op syntax.Token, x, y starlark.Value, pos syntax.Position) (starlark.Value, error) {
 	switch op {
 	case syntax.PLUS:
@@ -431,7 +447,7 @@ func (in *Interp) inplace(op syntax.Token, x, y starlark.Value, pos syntax.Posit
 				}
 				it.Done()
 				if err := appendAll(xl, elems); err != nil {
-					return nil, shared(pos, err)
+					return nil, unshared(pos, err)
 				}
 				return xl, nil
 			}
@@ -443,12 +459,12 @@ func (in *Interp) inplace(op syntax.Token, x, y starlark.Value, pos syntax.Posit
 				if len(items) == 0 {
 					// even an empty update requires a mutable dict
 					if err := checkMutableDict(xd); err != nil {
-						return nil, shared(pos, err)
+						return nil, unshared(pos, err)
 					}
 				}
 				for _, kv := range items {
 					if err := xd.SetKey(kv[0], kv[1]); err != nil {
-						return nil, shared(pos, err)
+						return nil, unshared(pos, err)
 					}
 				}
 				return xd, nil
